@@ -1,6 +1,9 @@
 package zzmain
 
 import (
+	"os"
+	"syscall"
+
 	"go.uber.org/thriftrw/internal/zzsim/world/orderw"
 	"go.uber.org/thriftrw/internal/zzsim/world/pluginw"
 )
@@ -25,4 +28,12 @@ func init() {
 }
 
 // RealPlugin is the plugin side of the stub-fidelity cross-check.
-func RealPlugin(jobFile string) int { return pluginw.RealPluginMain(jobFile) }
+func RealPlugin(jobFile string) int {
+	st := pluginw.RealPluginMain(jobFile)
+	if st < 0 {
+		// the script says "killed by a signal"
+		syscall.Kill(os.Getpid(), syscall.SIGKILL)
+		select {}
+	}
+	return st
+}
